@@ -213,6 +213,62 @@ def rule_r3_macros(body, log, where, fname):
     return body
 
 
+def rule_r8_result_combinators(body, log, where):
+    """R8a: `E.and_then(|_| B)`  ->  `match E { Ok(_) => B, Err(__e) => Err(__e) }`           (std: Result::and_then)
+       R8b: `X.iter().zip(Y.iter()).try_for_each(|(l, r)| F)`  ->  index loop over the common prefix that stops at the
+            first Err (std: Iterator::zip stops at the shorter side, try_for_each at the first error).
+       Opt-in (`rules=R8`): lets Verus see code whose closures capture `&mut` (rejected as closures)."""
+    n8a = n8b = 0
+    # R8b first (it sits inside the and_then closure)
+    while True:
+        kind = rs.code_mask(body)
+        hit = None
+        for s_, e_, m in rs.find_code(body, kind, r'\.\s*iter\s*\(\s*\)\s*\.\s*zip\s*\(', 0, len(body)):
+            hit = (s_, e_, m); break
+        if hit is None:
+            break
+        s_, e_, m = hit
+        x_start = _receiver_start(body, kind, s_)
+        x = body[x_start:s_].strip()
+        zopen = e_ - 1
+        zclose = rs.match_close(body, kind, zopen)
+        yexpr = body[zopen + 1:zclose].strip()
+        my = re.fullmatch(r'(.+?)\s*\.\s*iter\s*\(\s*\)', yexpr, re.S)
+        mt = re.match(r'\s*\.\s*try_for_each\s*\(\s*\|\s*\(\s*(\w+)\s*,\s*(\w+)\s*\)\s*\|', body[zclose + 1:])
+        if not my or not mt:
+            raise Undecided('rule R8b: unsupported zip shape in %s' % where)
+        y = my.group(1).strip()
+        topen = body.index('(', zclose + 1)
+        tclose = rs.match_close(body, kind, topen)
+        fstart = zclose + 1 + mt.end()
+        f = body[fstart:tclose].strip()
+        n8b += 1
+        k = '__k8_%d' % n8b
+        r = '__r8_%d' % n8b
+        new = ('{ let mut %s: usize = 0; let mut %s = Ok(()); while %s < %s.len() && %s < %s.len() { '
+               'let %s = &%s[%s]; let %s = &%s[%s]; match %s { Ok(()) => {}, Err(__e) => { %s = Err(__e); break; } } %s += 1; } %s }'
+               % (k, r, k, x, k, y, mt.group(1), x, k, mt.group(2), y, k, f, r, k, r))
+        body = body[:x_start] + new + body[tclose + 1:]
+    while True:
+        kind = rs.code_mask(body)
+        hit = None
+        for s_, e_, m in rs.find_code(body, kind, r'\.\s*and_then\s*\(\s*\|\s*_e?\s*\|', 0, len(body)):
+            hit = (s_, e_, m); break
+        if hit is None:
+            break
+        s_, e_, m = hit
+        popen = body.index('(', s_)
+        pclose = rs.match_close(body, kind, popen)
+        b = body[e_:pclose].strip()
+        rstart = _receiver_start(body, kind, s_)
+        recv = body[rstart:s_].strip()
+        n8a += 1
+        body = body[:rstart] + 'match %s { Ok(_) => %s, Err(__e) => Err(__e) }' % (recv, b) + body[pclose + 1:]
+    log.hit('R8a.and_then', n8a, where)
+    log.hit('R8b.zip_try_for_each', n8b, where)
+    return body
+
+
 def rule_r5_mut_self(header, body, log, where):
     """`fn f(mut self, ..) { B }` -> `fn f(self, ..) { let mut self_ = self; B[self := self_] }`
        (Verus: "mut self" unsupported). Same moves, same mutations."""
@@ -497,6 +553,8 @@ def apply_fn(d, log, fnmap, out_lineno):
         body = rule_r1_break(body, log, where)
     body = rule_r2_underscore_closure(body, log, where)
     body = rule_r3_macros(body, log, where, name)
+    if 'R8' in d.opts.get('rules', ''):
+        body = rule_r8_result_combinators(body, log, where)
     if 'R4' not in d.norules:
         body = rule_r4_any_all(body, log, where)
     # collect insertions on the (rewritten) body, all computed against the same text
